@@ -58,10 +58,11 @@ type c09Pod struct {
 	Prio   string `json:"prio"`  // prod | mid | batch | free | none
 	Qos    string `json:"qos"`   // LSE | LSR | LS | BE (always set as label)
 	Phase  string `json:"phase"` // Running | Pending | Succeeded | Failed
+	Term   bool   `json:"term"`  // being deleted: deletionTimestamp set (the phase stays what it is)
 	Req    c09RL  `json:"req"`
 	Metric bool   `json:"metric"`
 	Use    c09RL  `json:"use"`
-	Numa   []int  `json:"numa"`
+	Numa   []int  `json:"numa"` // NUMA ids of the resource-status annotation (may name zones the node does not have)
 }
 
 type c09In struct {
@@ -234,6 +235,10 @@ func (env *c09Env) c09Exec(in c09In) (out vu.Ev, failure string) {
 		}
 		if p.Prio != "none" {
 			pod.Spec.PriorityClassName = string(c09Prio(p.Prio))
+		}
+		if p.Term {
+			pod.DeletionTimestamp = &metav1.Time{Time: c09Now.Add(-5 * time.Second)}
+			pod.DeletionGracePeriodSeconds = c09Int64Ptr(600)
 		}
 		if len(p.Numa) > 0 {
 			rs := extension.ResourceStatus{}
@@ -510,6 +515,22 @@ func c09EnumPodSets(c, m int64, thorough bool) (plain []c09PodSet, zoned []c09Po
 		plain = append(plain, c09PodSet{apps: []c09Use{use(pr, 4)}})
 	}
 	plain = append(plain, c09PodSet{pods: []c09Pod{pod("prod", "LS", "Running", 12, false, 0)}, dang: []c09Use{use("prod", 3)}, apps: []c09Use{use("prod", 4)}})
+	// pods that are being deleted (deletionTimestamp set, not yet terminated): they count like any other pod
+	term := func(p c09Pod) c09Pod { p.Term = true; return p }
+	for _, s := range mstates[:3] {
+		plain = append(plain, c09PodSet{pods: []c09Pod{term(pod("prod", "LS", "Running", s.req, s.metric, s.use))}})
+	}
+	plain = append(plain,
+		c09PodSet{pods: []c09Pod{term(pod("prod", "LSE", "Running", 15, true, 5))}},
+		c09PodSet{pods: []c09Pod{term(pod("mid", "LS", "Pending", 15, false, 0))}},
+		c09PodSet{pods: []c09Pod{term(pod("batch", "BE", "Running", 15, true, 5))}},
+		c09PodSet{pods: []c09Pod{pod("prod", "LS", "Running", 12, true, 4), term(pod("prod", "LS", "Running", 9, false, 0))}})
+	if thorough {
+		plain = append(plain,
+			c09PodSet{pods: []c09Pod{term(pod("none", "LS", "Running", 15, false, 0))}},
+			c09PodSet{pods: []c09Pod{term(pod("prod", "LS", "Succeeded", 15, true, 5))}},
+			c09PodSet{pods: []c09Pod{term(pod("prod", "LS", "Running", 12, true, 4))}, dang: []c09Use{use("prod", 7)}})
+	}
 
 	// pods bound to NUMA zones (zoned scenarios run with two zones)
 	numas := [][]int{{}, {0}, {1}, {0, 1}}
@@ -525,6 +546,19 @@ func c09EnumPodSets(c, m int64, thorough bool) (plain []c09PodSet, zoned []c09Po
 			dang: []c09Use{use("prod", 3)}, apps: []c09Use{use("prod", 3)}})
 	}
 	zoned = append(zoned, c09PodSet{}, c09PodSet{dang: []c09Use{use("prod", 7)}}, c09PodSet{dang: []c09Use{use("batch", 7)}})
+	// annotation ids naming zones the node does not have (the zoned scenarios have one or two zones: ids 0, 1):
+	// alone (the pod is bound nowhere), next to an existing id, negative
+	for _, nu := range [][]int{{2}, {0, 2}, {-1, 1}} {
+		for _, s := range mstates[:3] {
+			zoned = append(zoned, c09PodSet{pods: []c09Pod{pod("prod", "LS", "Running", s.req, s.metric, s.use, nu...)}})
+		}
+	}
+	zoned = append(zoned, c09PodSet{pods: []c09Pod{pod("prod", "LSE", "Running", 6, true, 14, 1, 3)}})
+	// pods being deleted, bound / unbound
+	zoned = append(zoned,
+		c09PodSet{pods: []c09Pod{term(pod("prod", "LS", "Running", 15, false, 0))}},
+		c09PodSet{pods: []c09Pod{term(pod("prod", "LS", "Running", 15, true, 5, 0))}},
+		c09PodSet{pods: []c09Pod{term(pod("prod", "LS", "Running", 5, true, 15, 1, 2))}})
 	return plain, zoned
 }
 
@@ -719,6 +753,12 @@ func c09Rand(rng *rand.Rand) c09In {
 					p.Numa = append(p.Numa, z)
 				}
 			}
+			if rng.Intn(4) == 0 { // an id the node does not have (stale annotation, topology changed)
+				p.Numa = append(p.Numa, []int{nz, nz + 1 + rng.Intn(3), -1}[rng.Intn(3)])
+			}
+		}
+		if (p.Phase == "Running" || p.Phase == "Pending") && rng.Intn(5) == 0 {
+			p.Term = true
 		}
 		in.Pods = append(in.Pods, p)
 	}
